@@ -1,6 +1,6 @@
 (* Corr/Live.v -- case type and checker for the live-event pump and budget correspondence
    (serves C02, C07, C08, C11, C16). *)
-From SS Require Export Model.Live Corr.Common.
+From SS Require Export Model.Live Model.Expand Corr.Common.
 Local Open Scope N_scope.
 
 Definition optstr_eqb := opt_eqb str_eqb.
@@ -59,6 +59,78 @@ Definition pump_eqb (with_ref : bool) (a b : pump_result) : bool :=
   && Bool.eqb (p_seen_doc_end a) (p_seen_doc_end b)
   && Bool.eqb (p_synth_null a) (p_synth_null b).
 
+(* ---- the specification side of C02 on real parser output: the body of a single-document stream is
+   parsed back into a forest (checked to linearise to the very same items) and its alias-free expansion
+   must be what the pump delivered; where the expansion is undefined the pump must have failed ---- *)
+Fixpoint parse_node (fuel : nat) (items : list raw_item) : option (node * list raw_item) :=
+  match fuel with
+  | O => None
+  | S f =>
+    match items with
+    | RItem (RScalar v st a t) sp :: r => Some (NScalar v st a t sp, r)
+    | RItem (RAlias id) sp :: r => Some (NAlias id sp, r)
+    | RItem (RSeqStart a t) sp :: r =>
+      match parse_children f r with
+      | Some (kids, RItem RSeqEnd spe :: r') => Some (NSeq a t sp kids spe, r')
+      | _ => None
+      end
+    | RItem (RMapStart a t) sp :: r =>
+      match parse_children f r with
+      | Some (kids, RItem RMapEnd spe :: r') => Some (NMap a t sp kids spe, r')
+      | _ => None
+      end
+    | _ => None
+    end
+  end
+with parse_children (fuel : nat) (items : list raw_item) : option (forest * list raw_item) :=
+  match fuel with
+  | O => None
+  | S f =>
+    match items with
+    | RItem RSeqEnd _ :: _ | RItem RMapEnd _ :: _ | RItem RDocEnd _ :: _ => Some (FNil, items)
+    | _ =>
+      match parse_node f items with
+      | Some (n, r) => match parse_children f r with Some (k, r') => Some (FCons n k, r') | None => None end
+      | None => None
+      end
+    end
+  end.
+
+Fixpoint raw_item_eqb (a b : raw_item) : bool :=
+  match a, b with
+  | RItem x sx, RItem y sy =>
+    loc_eqb (location_from_span sx) (location_from_span sy)
+    && match x, y with
+       | RScalar v st an t, RScalar v' st' an' t' => str_eqb v v' && style_eqb st st' && (an =? an') && optstr_eqb t t'
+       | RSeqStart an t, RSeqStart an' t' | RMapStart an t, RMapStart an' t' => (an =? an') && optstr_eqb t t'
+       | RAlias i, RAlias j => i =? j
+       | RSeqEnd, RSeqEnd | RMapEnd, RMapEnd | RDocEnd, RDocEnd | RStreamEnd, RStreamEnd | RStreamStart, RStreamStart
+       | RNothing, RNothing => true
+       | RDocStart x', RDocStart y' => Bool.eqb x' y'
+       | _, _ => false
+       end
+  | _, _ => false
+  end.
+
+Definition expansion_agrees (lim : alias_limits) (items : list raw_item) (e : pump_result) : bool :=
+  match items with
+  | RItem RStreamStart _ :: RItem (RDocStart _) _ :: body =>
+    match parse_children (S (S (length body))) body with
+    | Some (f, [RItem RDocEnd _; RItem RStreamEnd _]) =>
+      if negb (list_eqb raw_item_eqb (lin_forest f) (firstn (length body - 2) body)) then false else
+      match expand_forest lim [] (mkX [] 0 []) f with
+      | Some (out, _) =>
+        match out with
+        | [] => true                         (* an empty document: the synthesized null, not part of the statement *)
+        | _ => list_eqb ev_eqb out (map d_ev (p_events e)) && match p_error e with None => true | Some _ => false end
+        end
+      | None => match p_error e with Some _ => true | None => false end
+      end
+    | _ => true                              (* several documents, or a scan error: outside this statement *)
+    end
+  | _ => true
+  end.
+
 Inductive case :=
 | CPump (max_events : N) (use_peek : bool) (b : option budget) (per_document : bool)
         (lim : alias_limits) (stop : bool) (items : list raw_item) (expect : pump_result)
@@ -68,5 +140,6 @@ Definition check_case (c : case) : bool :=
   match c with
   | CPump n use_peek b pd lim stop items e =>
     pump_eqb use_peek (pump (N.to_nat n) use_peek b pd lim stop items) e
+    && match b with None => expansion_agrees lim items e | Some _ => true end
   | CBudget items b pd e => opt_eqb report_eqb (check_yaml_budget items b pd) e
   end.
